@@ -289,7 +289,68 @@ def gen_tables(spec, vh, tier="quick"):
                 with open(dst, "wb") as g:
                     g.write(new)
                 changed.append(f)
+        # remember which property's harness produces which Gen file (used by gen_dependencies)
+        mp = os.path.join(CACHE, "gen-producers.json")
+        try:
+            prod = json.load(open(mp))
+        except Exception:
+            prod = {}
+        for f in os.listdir(tmp):
+            prod[f] = spec["id"]
+        with open(mp, "w") as g:
+            json.dump(prod, g)
     return True, out, changed
+
+
+def gen_imports(vfile):
+    """Gen/*.v files in the dependency cone of coq/<vfile>, whether or not they exist yet."""
+    seen, todo, gens = set(), [vfile], set()
+    while todo:
+        f = todo.pop()
+        if f in seen:
+            continue
+        seen.add(f)
+        for m in v_imports(os.path.join(COQ, f)):
+            rel = m.replace("DicomV.", "").replace(".", "/") + ".v"
+            if rel.startswith("Gen/"):
+                gens.add(os.path.basename(rel))
+                if os.path.exists(os.path.join(COQ, rel)):
+                    todo.append(rel)
+            elif os.path.exists(os.path.join(COQ, rel)):
+                todo.append(rel)
+    return gens
+
+
+def gen_dependencies(spec, tier):
+    """Regenerate the Gen tables that this property's proofs depend on but that ANOTHER property's harness
+    produces (e.g. C01 imports the header tables of C03), so that a stale or foreign table can never decide
+    a check: every table in the cone is rebuilt from /repo's current working tree on every run."""
+    need = gen_imports(spec["property_file"])
+    if not need:
+        return True, []
+    try:
+        prod = json.load(open(os.path.join(CACHE, "gen-producers.json")))
+    except Exception:
+        prod = {}
+    table_specs = {s["id"]: s for s in all_specs() if s.get("tables") and s["id"] != spec["id"]}
+    producers = set()
+    for f in need:
+        if f in prod:
+            if prod[f] in table_specs:
+                producers.add(prod[f])
+        else:
+            producers.update(table_specs.keys())      # unknown producer: regenerate every table
+    done = []
+    for pid in sorted(producers):
+        s2 = table_specs[pid]
+        ok, out, vh2 = build_harness(s2, s2.get("harness_profile", "dev"))
+        if not ok:
+            return False, done
+        okt, outt, ch = gen_tables(s2, vh2, tier)
+        if not okt:
+            return False, done
+        done.append(pid + (":changed=" + ",".join(ch) if ch else ""))
+    return True, done
 
 
 def run_cases(spec, vh, seed, n, tier, workdir, with_coq=True, extra_env=None):
@@ -399,6 +460,12 @@ def check(pid, tier="quick", seed=None, n_override=None, replay=None):
             broken.append("tables:generation-failed")
         elif changed:
             notes.append("regenerated tables changed: " + ",".join(changed))
+
+    okd, deps_done = gen_dependencies(spec, tier)
+    if not okd:
+        broken.append("tables:dependency-generation-failed")
+    elif deps_done:
+        notes.append("tables of other properties in the cone regenerated: " + "; ".join(deps_done))
 
     # 3. proofs
     okc, outc, first = coq_build(spec["coq_targets"])
